@@ -90,7 +90,7 @@ class World:
         self.tr_calls = []             # (level, abstract, Tparent.field)
         self.anomalies = []            # things a resolver saw that cannot be right
         self.fired = []                # fault inst keys that fired
-        self.seen_insts = set()        # every inst key whose value was produced (fault discovery)
+        self.insts = {}                # inst key -> (T, field, raw value): every instance produced (fault discovery)
 
     # ---------------------------------------------------------------- pure value function
     def inst_key(self, pid, fname, args):
@@ -109,7 +109,7 @@ class World:
     def field_outcome(self, T, fname, pid, args):
         """('value', v, key) | ('raise', exc_factory_tag, key)."""
         v, key = self.field_raw(T, fname, pid, args)
-        self.seen_insts.add(key)
+        self.insts.setdefault(key, (T, fname, v))
         fault = self.faults.get(key)
         if fault is None:
             return ("value", v, key)
@@ -227,7 +227,6 @@ class World:
         f = self.s.types[T].fields[fname]
         key = self.inst_key(pid, fname, None)
         if f.type[0] != "NN" and self.rng_for(key + "|absent").random() < self.P_ABSENT and key not in self.faults:
-            self.seen_insts.add(key)
             return ("absent", None, key)
         return self.field_outcome(T, fname, pid, None)
 
